@@ -81,14 +81,17 @@ def ranks(values):
 
 
 def near_pairs(sorted_vals, nulp=4):
-    """pairs of ranks whose values differ by at most nulp * 2^-52 * max(|a|,|b|)"""
+    """pairs of ranks whose values differ by at most nulp * 2^-52 * the scale of the collection (its largest magnitude): the
+    values are times obtained by adding steps, so the round-off of a time near zero is that of the operands that produced it
+    (a run from t = -1/2 reaches 5e-17 instead of 0 with the integrators whose stage weights do not sum to one exactly)"""
     out = []
     n = len(sorted_vals)
+    scale = max([abs(v) for v in sorted_vals] or [0])
     for i in range(n):
         j = i + 1
         while j < n:
             a, b = sorted_vals[i], sorted_vals[j]
-            if b - a <= nulp * Fraction(1, 2 ** 52) * max(abs(a), abs(b)):
+            if b - a <= nulp * Fraction(1, 2 ** 52) * scale:
                 out.append([i + 1, j + 1])
                 j += 1
             else:
